@@ -290,7 +290,7 @@ func init() {
 	wrapCallees["invoke (z/core.TimeoutGuard).ProceedAfter"] = true
 	register(&PropSpec{
 		ID:          "C13",
-		Explanation: "Decides, for every input and schedule, the structural clause 'on the query result path no error is dropped and every error reaches the caller or the failure bookkeeping': errflow rules over the SSA form of every call site of a result producer, plus dominance rules for the success bookkeeping (cache succeed, NumSuccessfulPartitions) and the scan-continuation rule (a scan never ends by itself with a nil error). Added clauses: no error-returning call on the result path is dropped; on the leader's end of a follower's query stream every receive error (io.EOF included) fails the partition and a message is used as fields/row only after EndOfResults == false.",
+		Explanation: "Decides, for every input and schedule, the structural clause 'on the query result path no error is dropped and every error reaches the caller or the failure bookkeeping': errflow rules over the SSA form of every call site of a result producer, plus dominance rules for the success bookkeeping (cache succeed, NumSuccessfulPartitions) and the scan-continuation rule (a scan never ends by itself with a nil error). Added clauses: no error-returning call on the result path is dropped; on the leader's end of a follower's query stream every receive error (io.EOF included) fails the partition and a message is used as fields/row only after EndOfResults == false. Further clause: IN-subqueries run under the runner's own context.",
 		NotDecided:  []string{"whether deadlines/timeouts fire at the right time", "gRPC transport failures below the stream API", "os.IsNotExist on the data file being served as 'no file yet' (reading note)"},
 		Assumptions: []string{"go/ssa models the control flow of the compiled program", "wrapper functions (fmt.Errorf, golog Errorf, errors.New) return a non-nil error carrying their argument"},
 		Rules:       []func(*Ctx){ruleC13a, ruleC13w, ruleC13b, ruleC13d, ruleC13e, ruleC13f, ruleC13g, ruleC13h, ruleC13i},
